@@ -514,6 +514,45 @@ def send_guard_fragment(mod, relpath):
             f'def TCPPacketGenerator.run_send_guard {{α : Type}} [NumX α]{ps} : Bool :=\n  decide {c}\n')
 
 
+def stale_guard_fragment(mod, relpath):
+    """in `TCPPacketGenerator.put`: the test of the early return on an acknowledgement that a later cumulative one has overtaken
+    (`if ackno < self.last_ack: return`).  Shape checked: the method opens with the `assert` and `ackno = ack.ack`; exactly one
+    `if <test>: return` (no `else`) stands between that assignment and the first statement that touches `self.dupack`, nothing else
+    does, and the test reads only `ackno` and `self.last_ack`."""
+    fn = find_method(mod, 'TCPPacketGenerator', 'put')
+    body = [st for st in fn.body if not (isinstance(st, ast.Expr) and isinstance(st.value, ast.Constant))]
+
+    def touches_dupack(st):
+        return any(is_self_attr(n, 'dupack') for n in ast.walk(st))
+    first_dup = next((i for i, st in enumerate(body) if touches_dupack(st)), None)
+    if first_dup is None:
+        raise Unsupported('py2lean: TCPPacketGenerator.put no longer counts duplicate ACKs in self.dupack')
+    head = body[:first_dup]
+    is_ackno = [i for i, st in enumerate(head) if isinstance(st, ast.Assign) and len(st.targets) == 1
+                and isinstance(st.targets[0], ast.Name) and st.targets[0].id == 'ackno' and dotted(st.value) == 'ack.ack']
+    if len(is_ackno) != 1:
+        raise Unsupported('py2lean: put no longer starts with `ackno = ack.ack` before the duplicate-ACK counting')
+    for st in head[:is_ackno[0]]:
+        if not isinstance(st, ast.Assert):
+            fail(st, 'statement other than the `assert` before `ackno = ack.ack` in put')
+    between = head[is_ackno[0] + 1:]
+    guards = [st for st in between if isinstance(st, ast.If) and not st.orelse and len(st.body) == 1
+              and isinstance(st.body[0], ast.Return) and st.body[0].value is None]
+    if len(guards) != 1 or len(between) != 1:
+        raise Unsupported('py2lean: expected exactly one early `if …: return` (the overtaken-ACK guard) between `ackno = ack.ack` '
+                          f'and the duplicate-ACK counting of TCPPacketGenerator.put, found {len(guards)} among {len(between)} statement(s)')
+    names = ['ackno', 'last_ack']
+    tr = Tr(None, ['ackno'], ext={'self.last_ack': 'last_ack'})
+    c, ch = tr.cond(guards[0].test)
+    if ch:
+        fail(guards[0].test, 'partial operation in the overtaken-ACK guard')
+    ps = ''.join(f' ({p} : α)' for p in names)
+    return (f'/-- generated from the test of the early `if …: return` of TCPPacketGenerator.put ({relpath}): an acknowledgement\n'
+            f'overtaken by a later cumulative one is ignored; the translator also checked that it stands right after\n'
+            f'`ackno = ack.ack`, before anything touches `self.dupack`, and that its body is a bare `return` -/\n'
+            f'def TCPPacketGenerator.put_stale_guard {{α : Type}} [NumX α]{ps} : Bool :=\n  decide {c}\n')
+
+
 # ---- what is generated ------------------------------------------------------------------------------------------
 
 TCP_SRC = 'onl/packet/tcp_generator.py'
@@ -540,7 +579,7 @@ CC_METHODS = [
 TRANSLATED = [f'{c}.{m}' for c, m in CC_METHODS] + [
     'TCPCubic.__init__ (defaults)', 'TCPPacketGenerator.put (estimator block)', 'TCPPacketGenerator.put (sample_rtt)',
     'TCPPacketGenerator.timeout_callback (RTO back-off)', 'TCPPacketGenerator.__init__ (initial RTO)',
-    'TCPPacketGenerator.run (send guard)']
+    'TCPPacketGenerator.run (send guard)', 'TCPPacketGenerator.put (early return on an overtaken ACK)']
 
 
 def generate_tcpcc():
@@ -565,6 +604,7 @@ def generate_tcpcc():
     out.append(backoff_fragment(mod, TCP_SRC, EST_SCHEMA))
     out.append(init_rto_fragment(mod, TCP_SRC, EST_SCHEMA))
     out.append(send_guard_fragment(mod, TCP_SRC))
+    out.append(stale_guard_fragment(mod, TCP_SRC))
     return '\n'.join(out)
 
 
